@@ -27,6 +27,7 @@ import (
 	"github.com/lindb/lindb/internal/vbox"
 	"github.com/lindb/lindb/internal/vcrashfs"
 	"github.com/lindb/lindb/internal/vevid"
+	vos "github.com/lindb/lindb/internal/vos"
 	"github.com/lindb/lindb/kv"
 	"github.com/lindb/lindb/kv/table"
 	"github.com/lindb/lindb/kv/version"
@@ -354,6 +355,8 @@ func short(p string) string {
 }
 
 func installSeams() {
+	// every os-level mutation of the rewritten packages is a crash point as well (also calls a later change adds)
+	vos.Hook = func(op, path string) { rec.At("os." + op + " " + short(path)) }
 	ks := kv.VerifGetSeams()
 	kv.VerifSetSeams(kv.VerifSeams{
 		RemoveDir: func(p string) error { err := ks.RemoveDir(p); rec.At("removeDir " + short(p)); return err },
